@@ -176,12 +176,20 @@ def impl(line):
             if noun is not None:
                 sing, plur = noun_forms(line["lang"], noun, P)
                 P["warn"][0] = 0
+            # cross-language stratum: the constituent's language is line["lang"]; the OTHER language is the current
+            # one either from the start (explicit lang= on every constructor) or from just before realization
+            cross = line.get("cross")
+            other = P["load"]["fr" if line["lang"] == "en" else "en"]
+            kw = {}
+            if cross == "explicit":
+                other()
+                kw = {"lang": line["lang"]}
             if lem["t"] == "other":
-                no = p.NO(None)
+                no = p.NO(None, **kw)
             elif lem["t"] == "str":
-                no = p.NO(lem["s"])
+                no = p.NO(lem["s"], **kw)
             else:
-                no = p.NO(val_py(lem))
+                no = p.NO(val_py(lem), **kw)
             for c in line["calls"]:
                 if c[0] == "dOpt":
                     no = no.dOpt({k: (v if v != "other" else "x") for k, v in c[1]})
@@ -190,6 +198,8 @@ def impl(line):
                 else:
                     no = no.nat(c[1] if c[1] != "other" else "x")
             if noun is None:
+                if cross == "switch":
+                    other()
                 try:
                     gn = no.grammaticalNumber()
                 except Exception as e:  # noqa
@@ -197,12 +207,17 @@ def impl(line):
                 r = no.realize()
                 return {"r": r, "w": P["warn"][0], "n": no.getProp("n"), "gn": gn}
             if line.get("notation") == "dep":
-                txt = p.root(p.N(noun), p.det(no)).realize().strip()
+                tree = p.root(p.N(noun, **kw), p.det(no, **kw), **kw)
+            else:
+                tree = p.NP(no, p.N(noun, **kw), **kw)
+            if cross == "switch":
+                other()
+            txt = tree.realize()
+            if line.get("notation") == "dep":
+                txt = txt.strip()
                 if txt.endswith("."):
                     txt = txt[:-1]
                 txt = txt[:1].lower() + txt[1:]
-            else:
-                txt = p.NP(no, p.N(noun)).realize()
             if txt.endswith(" " + plur):
                 return {"r": txt[:-len(plur) - 1], "w": P["warn"][0], "gn": "p"}
             if txt.endswith(" " + sing):
@@ -215,8 +230,18 @@ def impl(line):
 def model_view(line, m):
     """the part of the model's answer that the implementation side can observe"""
     if line["op"] == "no" and "noun" in line and "err" not in m:
-        return {"r": m["r"], "w": m["w"], "gn": m["gn"]}
-    return m
+        m = {"r": m["r"], "w": m["w"], "gn": m["gn"]}
+    return cross_view(line, m)
+
+
+def cross_view(line, x):
+    """cross-language stratum: text and grammatical number are compared; of the warnings only whether there was one
+    (a warning emitted while the other language is current is itself realized by pyrealb and can warn again about
+    its own words - warning texts are C15's business)"""
+    if line.get("cross") and "w" in x:
+        x = dict(x)
+        x["w"] = 1 if x["w"] else 0
+    return x
 
 
 # ===================================================================================================================
@@ -718,6 +743,42 @@ def gen_task(task, tier):
                     lines.append(no_line(lang, lemma_str_json(w, lang, P), rng.choice([NAT, ORD, RAW, [["dOpt", [["nat", False]]]]])))
                     if rng.random() < 0.3:   # a word lemma has no "mprecision" entry
                         lines.append(no_line(lang, lemma_str_json(w, lang, P), [["dOpt", [["nat", False], ["ord", False], ["raw", False]]]]))
+    elif kind == "cross":
+        # every kind of `no` line with the other language current (explicit lang= / built then switched): the text
+        # and the grammatical number must be those of the monolingual run, i.e. the model's
+        rng = random.Random(task[1])
+        P = pyrealb_api()
+        nouns = {"en": task[3], "fr": task[4]}
+        for _ in range(task[2]):
+            lang = rng.choice(LANGS)
+            r = rng.random()
+            if r < 0.35:
+                v = rng.choice([1000, 1001, 1234, 12345, 999999, 1000000, 1234567, 10 ** 9 + 1, -1000, -2500000,
+                                10 ** 17 + 1, rng.randint(1000, 10 ** 7), rng.randint(-10 ** 12, 10 ** 12), sample_int(rng)])
+            elif r < 0.7:
+                v = rng.choice([1234.5, -1234.5, 1234567.891, 0.5, 1.5, 2.5, 1000.0, 999.995, 1e15, 12345.678, -0.001,
+                                1.0, -1.0, 2.0, sample_float(rng), sample_float(rng), round(rng.uniform(1000, 10 ** 7), 3)])
+            else:
+                v = rng.choice([0, 1, -1, 2, 21, 71, 80, 81, 100, 200, 999, 3999, rng.randint(0, 3999)])
+            if isinstance(v, float):
+                calls = rng.choice([[], [["dOpt", [["mprecision", rng.randint(0, 6)]]]], [["dOpt", [["mprecision", rng.randint(0, 6)]]]], RAW, NAT])
+            else:
+                calls = rng.choice([[], [], NAT, NAT, ORD, ROM, RAW, [["dOpt", [["mprecision", rng.randint(0, 6)]]]]])
+            how = rng.choice(["explicit", "switch"])
+            l = no_line(lang, val_json(v), calls)
+            if nouns[lang] and rng.random() < 0.3 and calls is not ROM:
+                noun = rng.choice(nouns[lang])
+                g = (P["lex"][lang][noun]["N"].get("g") or ("n" if lang == "en" else "m"))
+                l = no_line(lang, val_json(v), calls, noun, rng.choice(["const", "dep"]), g)
+            l["cross"] = how
+            lines.append(l)
+        for lang in LANGS:
+            for sx in ["1000", "1,000", "1 000", "12.50", "1234.5", "-2500.75"] + LEX_WORDS[lang]:
+                for how in ("explicit", "switch"):
+                    for calls in ([], NAT, rng.choice([ORD, RAW, [["dOpt", [["mprecision", 3]]]]])):
+                        l = no_line(lang, lemma_str_json(sx, lang, P), calls)
+                        l["cross"] = how
+                        lines.append(l)
     elif kind == "malformed":
         rng = random.Random(task[1])
         vals = [0, 1, 5, -3, 1234567, 1.5, 10 ** 21, 2 ** 70]
@@ -848,7 +909,7 @@ def oracle(line, a, fails, spellings):
             pr = parse_formatted(lang, a["r"])
             want = Decimal(v).quantize(Decimal(1).scaleb(-p), rounding=decimal.ROUND_HALF_EVEN)
             if pr is None or pr[0] != want or pr[1] != p:
-                fails.append(("format:%s:float-parse-back" % lang, line, "%r with %d decimals printed %r, expected value %s" % (v, p, a["r"], want)))
+                fails.append((("format:%s:other-language-current" if line.get("cross") else "format:%s:float-parse-back") % lang, line, "%r with %d decimals printed %r, expected value %s" % (v, p, a["r"], want)))
         return
     if abs(v) >= 10 ** 21:
         return
@@ -885,7 +946,7 @@ def oracle(line, a, fails, spellings):
         pr = parse_formatted(lang, a["r"])
         if pr is None or pr[0] != v or pr[1] != 0:
             sig = "format:int-through-float" if (abs(v) > TWO53 and pr is not None and pr[1] == 0 and FMT[lang].match(a["r"])) \
-                else "format:%s:int-parse-back" % lang
+                else ("format:%s:other-language-current" if line.get("cross") else "format:%s:int-parse-back") % lang
             fails.append((sig, line, "NO(%d) printed %r" % (v, a["r"])))
 
 
@@ -936,7 +997,7 @@ def run_task(args):
     for i, (l, m) in enumerate(zip(lines, model)):
         if "driver_error" in m:
             raise core.Infra("driver error: %s on %s" % (m["driver_error"], core.canon(l)[:300]))
-        a = impl(l)
+        a = cross_view(l, impl(l))
         mv = model_view(l, m)
         if mv != a:
             if len(diffs) < 40:
@@ -952,6 +1013,8 @@ def run_task(args):
                     seen.add(h)
                     n_nontrivial += 1
         key = l["op"] if l["op"] != "no" else "no:" + ("np-" + l["notation"] if "noun" in l else (l["lemma"]["t"]))
+        if l.get("cross"):
+            key = "cross-" + l["cross"] + ":" + key
         dist[key] = dist.get(key, 0) + 1
         if "err" in a:
             dist["impl-exception:" + a["err"]] = dist.get("impl-exception:" + a["err"], 0) + 1
@@ -1035,6 +1098,9 @@ def plan(ctx, deep=False):
     en, fr = choose_nouns(rng, "en", k, P), choose_nouns(rng, "fr", k, P)
     for i in range(0, k, 40):
         tasks.append(("np", rng.getrandbits(48), en[i:i + 40], fr[i:i + 40], False))
+    ncross = 160000 if thorough else (20000 if deep else 6000)
+    for i in range(8):
+        tasks.append(("cross", rng.getrandbits(48), ncross // 8, en[:40], fr[:40]))
     tasks.append(("lemma", rng.getrandbits(48), 3000 if thorough else 400))
     tasks.append(("malformed", rng.getrandbits(48), 4000 if thorough else 600))
     return tasks
